@@ -34,7 +34,7 @@ GRAPH_PROPS = {}
 
 def _register():
     GRAPH_PROPS["C01"] = GraphProp("C01", gen_c01.gen_case, gen_c01.owner, oracles.c01, gen_c01.reach,
-                                   shard=gen_c01.shard)
+                                   shard=gen_c01.shard, valid=gen_c01.valid)
     try:
         from . import gen_c03
         GRAPH_PROPS["C03"] = GraphProp("C03", gen_c03.gen_case, gen_c03.owner, gen_c03.compare,
